@@ -123,7 +123,9 @@ theorem connWF_pollConn : ∀ (fuel : Nat) (c : Conn), ConnWF c → ConnWF (poll
 
 /-! ## 1'. Handler fuel -/
 
-/-- **`handlerPoll_no_fuel_panic`.**  The handler poll that `pollConn` makes — fuel
+/-- **`handlerPoll_no_fuel_panic`.**  (Since the model's handler fuel has the extra term `scriptCost h`, the bound
+`hb` below is no longer needed for the poll `pollConn` makes: `C07SF.handlerPoll_guard_unreachable`.)  The handler poll
+with the script-independent part of the fuel `pollConn` passes — fuel
 `handlerFuel e r = 1000 + 4·|input| + 4·Σ|segs| + 4·cap` — never reports the handler fuel guard (any
 panic it reports is a modelled panic site of the Rust) if
 `scriptCost h + |raw| + |stream buffer| ≤ 999 + 3·|input| + 4·Σ|segs| + 4·cap`. -/
@@ -354,7 +356,8 @@ theorem handler_phase_panic_real (c : Conn) (r : AReq) (h : HState) (hph : c.pha
   all_goals first
     | (cases hs; done)
     | (cases hs
-       exact handlerPoll_no_fuel_panic r h env ‹_› hb)
+       have hh := handlerPoll_fuel2 _ r h env ‹_› (by simp only [pool]; simp only at hb; omega)
+       exact ⟨hh, hh.not_fuel⟩)
 
 /-! ## Non-vacuity -/
 
